@@ -3,7 +3,7 @@
 # /repo in an isolated copy of /verif (so neither /repo, nor the shared Coq build tree, is touched).
 set -u
 W=$(mktemp -d /tmp/mut.XXXXXX)
-trap 'rm -rf "$W"' EXIT
+[ -n "${KEEP:-}" ] || trap 'rm -rf "$W"' EXIT; [ -n "${KEEP:-}" ] && echo "KEEP $W"
 rsync -a --exclude target --exclude .git /repo/ "$W/repo/"
 if [ "$1" = "-e" ]; then
   sed -i "$2" "$W/repo/$3" || exit 2
@@ -14,7 +14,7 @@ else
 fi
 [ "$1" = "--" ] && shift
 ( cd "$W/repo" && diff -ru /repo/src src | head -40 )
-rsync -a --exclude work --exclude .git --exclude 'harness/target-*-release' --exclude 'harness/target' /verif/ "$W/verif/"
+rsync -a --exclude work --exclude .git --exclude 'harness/target-*-release' --exclude 'harness/target' "${VERIF_SRC:-/verif}/" "$W/verif/"
 sed -i "s|path = \"/repo\"|path = \"$W/repo\"|" "$W/verif/harness/Cargo.toml"
 rm -f "$W/verif/harness/Cargo.lock"
 cp /repo/Cargo.lock "$W/verif/harness/Cargo.lock" 2>/dev/null
